@@ -370,6 +370,8 @@ func checkC29(w *World, r *Run) {
 			r.Bad(ruleMust, "mustBeSignedHeader: patterns", must.Pos(), "no string tests found")
 		}
 	}
+	ruleCanon29 := r.Rule("canonical-header-value-covers-every-field-line", "F9", "collectSignedHeaders joins all values of a signed header with a comma, as the SDK signers do; no header value is taken with Header.Get (first line only)", 1)
+	checkCanonicalHeaderValues(w, r, ruleCanon29)
 	r.NotCovered("everything else: acceptance of all SDK-generated requests is a runtime comparison against the SDK signer; header canonicalisation (whitespace folding), presign query parameters, time handling")
 	_ = types.Universe
 }
